@@ -66,8 +66,8 @@ def drive(tier):
     pk = b"\x02" + h32
     templ = [b"\xa9\x14" + h20 + b"\x87", b"\x00\x14" + h20, b"\x00\x20" + h32, b"\x76\xa9\x14" + h20 + b"\x88\xac",
              b"\x51\x20" + h32, b"\x60\x02\x01\x02", b"\x60\x28" + bytes(40), b"\x60\x29" + bytes(41), b"\x50\x14" + h20,
-             b"\x4f\x14" + h20, bytes(CScript([2, pk, pk, 2, 0xae])), bytes(CScript([1, pk, pk, pk, 3, 0xaf])),
-             bytes(CScript([16] + [pk] * 16 + [16, 0xae])), bytes(CScript([0, 0xae])), bytes(CScript([pk, 0xae])),
+             b"\x4f\x14" + h20, bytes(CScript([2, pk, pk, 2, CScriptOp(0xae)])), bytes(CScript([1, pk, pk, pk, 3, CScriptOp(0xaf)])),
+             bytes(CScript([16] + [pk] * 16 + [16, CScriptOp(0xae)])), bytes(CScript([0, CScriptOp(0xae)])), bytes(CScript([pk, CScriptOp(0xae)])),
              b"\xae", b"\x60\xae\x51\xaf\x00\xae\xac\xad", b"\x4c\x01\x05", b"\x4d\x01\x00\x07", b"\x4e\x01\x00\x00\x00\x07",
              b"\x01\x05", b"\x01\x11", b"\x4c\x4b" + bytes(0x4b), b"\x4c\x4c" + bytes(0x4c), b"\x4d\xff\x00" + bytes(0xff),
              b"\x4d\x00\x01" + bytes(0x100), b"\x4e\x00\x00\x01\x00" + bytes(0x10000), b"\x4e\xff\xff\x00\x00" + bytes(0xffff),
